@@ -41,6 +41,8 @@ def check(model: Model, rep: Report, tier: str):
         w5(model, rep)
     with rep.isolated():
         w6(model, rep)
+    with rep.isolated():
+        w10(model, rep)
     from .common import order_kept_rule
     with rep.isolated():
         order_kept_rule(model, rep, "C18.W9", "TransformConstructor", "channel_indices",
@@ -53,6 +55,45 @@ def check(model: Model, rep: Report, tier: str):
         _share(rep, model, _r10, "C18.W8", "compact drawing works by replacing the one getter every global duration strategy reads through: the strategies look their own key up "
                "through GlobalDurationRegistry.get_registry_at and the override installs a lookup in the temporary table (= C01.R10); a strategy that reads the "
                "registry some other way is drawn with the file durations")
+
+
+def w10(model: Model, rep: Report):
+    """Every row of the draw-factory tables pairs an operation kind with a factory written for that kind."""
+    rep.rule("C18.W10", "in the draw-factory tables of VisualCircuitDescription every key K is (a subclass of) the operation type its factory's construct() is declared for, or a kind on the same number of qubits: "
+                        "a two-qubit kind handed to a single-qubit factory is drawn on its first row only (the other qubit's row stays empty)")
+    V = model.cls("VisualCircuitDescription")
+    n = 0
+    for f in [g for gs in V.methods.values() for g in gs]:
+        for d in ast.walk(f.node):
+            if not isinstance(d, ast.Dict):
+                continue
+            for k, v in zip(d.keys, d.values):
+                if not (isinstance(k, ast.Name) and isinstance(v, ast.Call) and isinstance(v.func, ast.Name)):
+                    continue
+                K, F = model.maybe_cls(k.id), model.maybe_cls(v.func.id)
+                if K is None or F is None:
+                    continue
+                c = F.resolve("construct")
+                if c is None or len(c.params) < 2 or c.params[1].annotation is None:
+                    continue
+                A = model.maybe_cls(ast.unparse(c.params[1].annotation).strip("'\""))
+                if A is None:
+                    continue        # declared for a generic / interface type: nothing to compare
+                n += 1
+
+                def arity(c_):
+                    two = model.maybe_cls("TwoQubitOperation")
+                    if two is not None and (c_ is two or c_.is_subclass_of(two)):
+                        return "two qubits"
+                    flds_ = c_.all_fields()
+                    return "a list of qubits" if "qubit_indices" in flds_ else "one qubit" if "qubit_index" in flds_ else "?"
+                # the declared type may be a sibling of the same shape (a factory annotated with the kind it was copied from): what matters for the rows is how many
+                # qubits the kind has
+                ok = K is A or K.is_subclass_of(A) or (arity(K) == arity(A) and arity(K) != "?")
+                rep.check(ok, "C18.W10", f"draw table[{K.name}]", f"{f.module.relpath}:{k.lineno}", found=f"{K.name} ({arity(K)}) -> {F.name} (written for {A.name}: {arity(A)})", required=f"a factory written for a kind on {arity(K)}",
+                          what=f"{K.name} operations are drawn by {F.name}, which is written for {A.name}: what it reads of the operation (its first channel only, other fields) does not "
+                               f"cover a {K.name} -- rows of the operation stay empty or it is misplaced", detail=f"row:{K.name}")
+    rep.floor("draw-factory table rows with a typed factory", n, 10)
 
 
 def w6(model: Model, rep: Report):
